@@ -70,6 +70,36 @@ theorem typst_injective_gen (C : TypstConsts) (hV : TypstItemsOK C) (v w : Narse
     (hw : wfTyN C w = true) (h : typstN C v = typstN C w) : v = w :=
   typstN_injective hV v w hv hw h
 
+/-! ### the stand-alone renderings of the items (the property names each of them) -/
+
+section items
+open TypstConsts
+
+theorem typst_punct_injective (p q : Punct) (h : Gen.typstC.typstPunct p = Gen.typstC.typstPunct q) : p = q := by
+  have h' := congrArg Gen.typstC.words h
+  simp only [typstPunct, words_post] at h'
+  exact (punct_inj typstItemsOK_crate p q [] [] (by simpa [serPunct] using h')).1
+
+theorem typst_stamp_injective (s1 s2 : Stamp) (h1 : wfStamp s1 = true) (h2 : wfStamp s2 = true)
+    (h : Gen.typstC.typstStamp s1 = Gen.typstC.typstStamp s2) : s1 = s2 := by
+  have h' := congrArg Gen.typstC.words h
+  simp only [typstStamp, words_post, words_stamp typstItemsOK_crate] at h'
+  exact (stamp_inj typstItemsOK_crate s1 s2 h1 h2 [] [] (by rw [h'])).1
+
+theorem typst_truth_injective (a b : Truth) (ha : wfTruth a = true) (hb : wfTruth b = true)
+    (h : Gen.typstC.typstTruth a = Gen.typstC.typstTruth b) : a = b := by
+  have h' := congrArg Gen.typstC.words h
+  simp only [typstTruth, words_post, words_truth typstItemsOK_crate _ ha, words_truth typstItemsOK_crate _ hb] at h'
+  exact truth_inj typstItemsOK_crate a b ha hb h'
+
+theorem typst_budget_injective (a b : Budget) (ha : wfBudget a = true) (hb : wfBudget b = true)
+    (h : Gen.typstC.typstBudget a = Gen.typstC.typstBudget b) : a = b := by
+  have h' := congrArg Gen.typstC.words h
+  simp only [typstBudget, words_post, words_budget typstItemsOK_crate _ ha, words_budget typstItemsOK_crate _ hb] at h'
+  exact (budget_inj typstItemsOK_crate a b ha hb [] [] (by simpa using h')).1
+
+end items
+
 /-- non-vacuity: the C01 sample values are well-formed for the renderer -/
 example : wfTyN Gen.typstC (.term C01.sample) = true := by decide +kernel
 
